@@ -136,8 +136,16 @@ func (l *logger) Log(e *Event) {
 	b := pool.Get().(*bytes.Buffer)
 	b.Reset()
 	l.p.write(b, e)
-	l.mu.Lock()
-	l.w.Write(b.Bytes())
-	l.mu.Unlock()
+	l.writeLine(b.Bytes())
 	pool.Put(b)
+}
+
+// writeLine hands one line to the writer. The lock is released
+// via defer since a writer that panics must not leave it locked:
+// the http server recovers the panic of that one request but every
+// later call of Log would then wait for the lock forever.
+func (l *logger) writeLine(p []byte) {
+	l.mu.Lock()
+	defer l.mu.Unlock()
+	l.w.Write(p)
 }
